@@ -584,7 +584,15 @@ deriving Repr, DecidableEq
 
 def isSimpleId (s : String) : Bool := !s.toList.isEmpty && s.toList.all Char.isAlpha
 
-def isSimpleAccount (s : String) : Bool := (s.splitOn ":").all isSimpleId
+/-- `atStart`: the current `:`-separated component is still empty -/
+def acctCharsOk : List Char → Bool → Bool
+  | [], atStart => !atStart
+  | ch :: t, atStart =>
+    if ch = ':' then !atStart && acctCharsOk t true
+    else ch.isAlpha && acctCharsOk t false
+
+/-- non-empty components of ASCII letters separated by `:` -/
+def isSimpleAccount (s : String) : Bool := acctCharsOk s.toList true
 
 /-- the domain in which identifier validity (`Commodity::from`, `AccountTreeNode::from`) is known -/
 def namesSimple (f : FileCfg) (c : CliOpts) : Bool :=
